@@ -8,6 +8,7 @@ Descriptor (plain dict, picklable):
                 ["submit", key, script]          script = list of per-attempt behaviours (UserFn steps)
                 ["cancel", key] ["result", key, timeout] ["addcb", key, cbkind] ["shutdown", wait] ["sleep", d]
                 ["notify"]                      (poll layer)
+                ["dcancel", key]                (cancel the base delegate's future of submission `key` directly)
                 ["setev", gate] ["waitev", gate] (scenario gates shared with UserFn steps ('waitev', gate) / ('setev', gate))
   tail      : virtual seconds main sleeps after the clients finished (lets timers fire)
 """
@@ -160,6 +161,9 @@ class PollScript(object):
         s.ev("pollfn", i, vname(results))
         self.calls.append((i, list(results), s.now, s.cur.tid))
         e = self.script[min(i, len(self.script) - 1)]
+        if isinstance(e, (list, tuple)) and e and e[0] == "at":
+            # ["at", T, entry]: behave as `entry` from virtual time T on, as "none" before (independent of how many polls happened)
+            e = e[2] if s.now >= e[1] else "none"
         try:
             s.yield_point("uyield")
             if e == "raise":
@@ -204,6 +208,10 @@ def run_clients(desc, s, w, ctx):
         def cb(f):
             s.ev("cbrun", cbid, vname(f), f.done())
             ctx.cb_runs.append((cbid, key, s.cur.tid, f.done(), s.now))
+            if kind == "slow":
+                # a callback that takes a while: other threads can act between two callbacks of the same future
+                s.yield_point("ucall")
+                s.yield_point("uyield")
             if kind == "raise":
                 raise EXC["E2"]("cb%d" % cbid)
             if kind == "submit":
@@ -312,6 +320,16 @@ def run_clients(desc, s, w, ctx):
                     do_shutdown(op[1], tid)
                 elif k == "sleep":
                     s.sleep(op[1])
+                elif k == "dcancel":
+                    # somebody else cancels the delegate future currently working for submission `key` behind the stack's back
+                    df = None
+                    for (f0, fn0, _a, _k) in reversed(getattr(ctx.delegate, "submitted", [])):
+                        if getattr(fn0, "name", None) == op[1]:
+                            df = f0
+                            break
+                    if df is not None:
+                        s.yield_point("api")
+                        df.cancel()
                 elif k == "setev":
                     s.yield_point("api")
                     w.gate(op[1]).set()
